@@ -48,6 +48,16 @@ class NotAnInt:
     pass
 
 
+class Awaitable:
+    """awaitable, but neither a coroutine nor a future"""
+
+    def __init__(self, coro):
+        self.coro = coro
+
+    def __await__(self):
+        return self.coro.__await__()
+
+
 def describe(e):
     if isinstance(e, BaseExceptionGroup):
         return {"group": [describe(x) for x in e.exceptions]}
@@ -100,7 +110,22 @@ async def do_action(a, who):
                 w.obs("Td", cid, arg)
                 for kid, kpass in kids:          # registered while the teardown is running
                     register(ctx, kid, kpass, [])
-            if pass_exc:
+            if cid % 3 == 2:
+                # the callback hands back an awaitable that is not a coroutine: its work is done when that has
+                # been awaited
+                def later(arg):
+                    ran(arg)
+
+                    async def work():
+                        await anyio.sleep(0)
+                        w.obs("TdDone", cid)
+                    return Awaitable(work())
+                if pass_exc:
+                    ctx.add_teardown_callback(lambda exc: later("none" if exc is None else describe(exc)),
+                                              pass_exception=True)
+                else:
+                    ctx.add_teardown_callback(lambda: later("noarg"))
+            elif pass_exc:
                 ctx.add_teardown_callback(lambda exc: ran("none" if exc is None else describe(exc)), pass_exception=True)
             else:
                 ctx.add_teardown_callback(lambda: ran("noarg"))
@@ -117,6 +142,8 @@ async def do_action(a, who):
                 # a task cancelled while start_service_task() was itself being cancelled never became
                 # a service task of the root context
                 w.obs("SvcCancelled" if sid in w.svc_started else "SvcAborted", sid)
+                if len(a) > 2 and a[2] == "raise_on_cancel":
+                    raise Crash(sid) from None      # its cleanup fails: the exception must not vanish
                 raise
             w.obs("Crash", sid)
             raise Crash(sid)
